@@ -6,6 +6,7 @@ import c02
 
 CONFIGS = ['prod', 'testutils']
 EXPLANATION = (
+    'B10: the text form of the timestamp the SQLite backend stores and reads back — writer / reader agreement (arity, order, radix, accepted ranges) and purity (no clock read reachable from the parser) — C10.E3 / E8 re-evaluated. '
     'ST: the provided put_with_ctx / multi_put_with_ctx of the Storage trait, which all three bundled backends inherit, call the backend\'s own put / multi_put once with the caller\'s keyspace and documents and return its result unchanged. '
     'MSEM: every Storage method of the in-memory backend interpreted per (keyspace, key) abstract pre-state against the reference key-value model. '
     'Decided clauses: B1 SQLite statement/parameter agreement — every StorageHandle call binds a tuple whose arity equals the number of `?` '
@@ -456,6 +457,14 @@ def check(ctx):
     # ST: the provided *_with_ctx methods every bundled backend inherits forward to the backend's own method and return its answer (storage_abs)
     import storage_abs
     storage_abs.check_defaults(ctx, prod, 'C17.ST')
+    # B10: the SQLite backend keeps the timestamp column as text, written with Display and read back with FromStr: writer / reader
+    # agreement of the text form and its purity (= C10.E3 / E8, re-evaluated under C17)
+    import c10
+    n0 = len(ctx.obs)
+    c10.check_E3(ctx, prod)
+    c10.check_text_pure(ctx, prod, rule='C17.B10')
+    for o in ctx.obs[n0:]:
+        o.rule = o.rule.replace('C10.E3', 'C17.B10')
     check_B3(ctx, prod, tu)
     check_B4(ctx, prod)
     check_B5(ctx, prod)
